@@ -47,6 +47,11 @@ add("C06", "exploration",
     "trusted: closed universe (targets, created contracts, beneficiaries are added as they appear), released escrow read from the escrow entries before the block, stub ConsensusHelper",
     "deterministic simulation: value-movement histories with gas-starvation faults + conservation monitor")
 
+add("C12", "exploration",
+    "seeded call trees (2-14 frames, CALL/CALLCODE/DELEGATECALL/STATICCALL, effects SSTORE / LOG / value transfer / CREATE, endings RETURN / REVERT / INVALID / infinite loop / stack fault, limited gas shares, starved root gas) are deployed as contracts and executed by the real block executor; every successful frame returns the bitmap of frames of its subtree whose effects must persist, so the root return data carries the actual outcome of every frame; storage of every frame slot, ordered receipt logs, balances, nonces and created accounts must equal exactly the effects of the reported frames, and nothing from a STATICCALL subtree may persist or report success after writing. Cross-transaction plans run 2-4 transactions on one state object and check per-receipt logs, equal gas (no inherited warm access list) and empty transient storage at the start of each. Sampling, not proof.",
+    "trusted: the harness assembler and the bitmap protocol of the generated contracts (a frame can only report success by executing its RETURN), per-frame slots/topics make every observed value attributable; SELFDESTRUCT not generated",
+    "deterministic simulation: generated call trees with gas-starvation faults; outcome-bitmap + exact post-state oracle; same-state-object transaction sequences")
+
 add("C13", "exploration",
     "n in [3,10] member objects run the node's own DKG code with the n*n share pieces delivered over a simulated transport in seeded order with duplicates; every member signs 1-3 messages and 2-5 collectors (real GroupSignGenerator) receive the shares in seeded arrival orders with drops, duplicates and late arrivals, under a seeded internal k-subset choice (randomness hook) and seeded share-map iteration order (instrumented build); for n<=7 every k-subset is additionally recovered directly. Oracle: same group public key on every member = sum of dealers' public keys; shares verify under public shares; threshold = ceil(51% n); every recovery equals H(m)^s for the independently summed secret and verifies under the group key; nothing below the threshold. Sampling (plus per-plan exhaustive subsets), not proof.",
     "trusted: the repository's Sign/VerifySig (soundness is C14, not applicable to this technique) for the reference signature on the independently summed secret; seeded randomness hook in base.NewRand; map-order instrumentation",
